@@ -430,6 +430,7 @@ var pcsSmall = []peerCfg{
 	{name: "v1+l3/L1", voters: []uint64{1}, learner: []uint64{3}, leader: 1},
 	{name: "v123/L3/p2", voters: []uint64{1, 2, 3}, leader: 3, pending: []uint64{2}},
 	{name: "v12+l3/L1/p3", voters: []uint64{1, 2}, learner: []uint64{3}, leader: 1, pending: []uint64{3}},
+	{name: "v123/L3/p1", voters: []uint64{1, 2, 3}, leader: 3, pending: []uint64{1}}, // same peers and leader as v123/L3/p2, the pending peer elsewhere
 }
 
 func newSmall(nIDs int, npc int, sizes []int64, points []string, pick ...int) *model {
@@ -519,6 +520,7 @@ func main() {
 		Scopes: []*hist.Scope{
 			{Name: "2ids-2points", Tiers: "quick", Depth: 2, NewModel: func() hist.Model { return newSmall(2, 6, []int64{1, 10}, []string{"a", "b"}) }},
 			{Name: "2ids-2points/3", Tiers: "quick", Depth: 3, NewModel: func() hist.Model { return newSmall(2, 0, []int64{1, 10}, []string{"a", "b"}, 0, 1, 5) }},
+			{Name: "2ids-2points/pending-moves", Tiers: "quick", Depth: 3, NewModel: func() hist.Model { return newSmall(2, 0, []int64{1, 10}, []string{"a", "b"}, 4, 6, 2) }},
 			{Name: "2ids-2points/6cfg@3", Tiers: "thorough", Depth: 3, NewModel: func() hist.Model { return newSmall(2, 6, []int64{1, 10}, []string{"a", "b"}) }},
 			{Name: "3ids-3points", Tiers: "quick", Depth: 2, NewModel: func() hist.Model { return newSmall(3, 6, []int64{1, 10}, []string{"a", "b", "c"}) }},
 			{Name: "3ids-3points/3", Tiers: "quick", Depth: 3, NewModel: func() hist.Model { return newSmall(3, 2, []int64{1}, []string{"a", "b", "c"}) }},
